@@ -1,6 +1,7 @@
 package main
 
 import (
+	"go/types"
 	"fmt"
 	"math/big"
 	"strings"
@@ -1093,4 +1094,35 @@ func unwrapCoinsSlice(t *Term) *Term {
 		return t.Args[0]
 	}
 	return t
+}
+
+// ---------------- EVM log decoding (go-ethereum abi): outside the model except for what a contract has to name.
+// EventByID(id) is a fixed function of the topic: whether an event with that id exists (abi_event_ok) and its name
+// (abi_event_name); Address.Hex() is a fixed function of the address bytes (addr_hex).
+func init() {
+	theory["(*github.com/ethereum/go-ethereum/accounts/abi.ABI).EventByID"] = func(x *Exec, f *Frame, st *State, c *CallInfo) Val {
+		id := c.T(1)
+		if id == nil {
+			return &TupleVal{[]Val{&OpaqueVal{Name: "abi_event", Type: nil}, x.freshTerm("abi_err", SErr)}}
+		}
+		e := x.freshTerm("abi_event_err", SErr)
+		st.assume(Eq(Eq(e, ErrNil), UF("abi_event_ok", SBool, id)))
+		ov := &OpaqueVal{Name: "abi_event:" + id.String()}
+		if rt, ok := c.ResTyp.(*types.Tuple); ok && rt.Len() == 2 {
+			ov.Type = rt.At(0).Type()
+		}
+		if x.fieldOverride == nil {
+			x.fieldOverride = map[string]*Term{}
+		}
+		x.fieldOverride[ov.Name+".Name"] = UF("abi_event_name", SStr, id)
+		o := x.newObj(nil, "abi_event")
+		st.mem[o] = ov
+		return &TupleVal{[]Val{&PtrVal{Obj: o}, e}}
+	}
+	theory["(github.com/ethereum/go-ethereum/common.Address).Hex"] = func(x *Exec, f *Frame, st *State, c *CallInfo) Val {
+		if a := c.T(0); a != nil {
+			return UF("addr_hex", SStr, a)
+		}
+		return x.freshTerm("hex", SStr)
+	}
 }
